@@ -14,6 +14,7 @@ ASSUMPTIONS = [
     "the renderer prints each abstract line in the form docs/features/plantuml.md shows; every rendered line is "
     "re-checked against a template regex written from that documentation",
     "noise is blank lines inside the tags and arbitrary text (including arrow-looking lines) outside them",
+    "a diagram file may be saved with LF or with CR LF line ends (15 % of the random diagrams): the same diagram",
 ]
 
 DECL_FORMS = ["brackets", "component", "component_brackets"]
@@ -92,7 +93,8 @@ def run(ctx):
     for k in range(n_rand):
         lines = random_diagram(rng, pool, rng.randint(2, 6), rng.random() < 0.4)
         tags = rng.random() > 0.1 or rng.choice([False, "start_only", "end_only", "reversed"])
-        items.append({"op": "parse", "lines": lines, "tags": tags, "pre": rng.choice(pres), "post": rng.choice(posts)})
+        items.append({"op": "parse", "lines": lines, "tags": tags, "pre": rng.choice(pres), "post": rng.choice(posts),
+                      "crlf": rng.random() < 0.15})          # saved with Windows line ends
     for i in range(0, len(items), 200):
         specs.append({"driver": "diagram", "world": None, "items": items[i:i + 200]})
     meta["random_diagrams"] = n_rand
@@ -102,7 +104,7 @@ def run(ctx):
     for f in fails:   # a replay needs only the failing diagram, not the 200 of its batch
         ev = f["event"]
         f["spec"] = {"driver": "diagram", "world": None,
-                     "items": [{"op": "parse", "lines": ev["lines"], "tags": ev["tags"]}]}
+                     "items": [{"op": "parse", "lines": ev["lines"], "tags": ev["tags"], "crlf": ev.get("crlf", False)}]}
     evs = [e for ep in episodes for e in ep]
     n_err = sum(1 for e in evs if e["out"] == "error")
     if not n_err or n_err == len(evs):
